@@ -25,3 +25,13 @@ Definition quote_on_demand (c : nqcfg) (v : str) : str := if needs_quotes c v th
 (** one parameter line of Material.export *)
 Definition param_line (c : nqcfg) (name value : str) : str :=
   [TAB] ++ quote_on_demand c name ++ [SP] ++ quote_on_demand c value ++ [LF].
+
+(** the whole file of a material that has parameters only (no sub-blocks, no proxies): Material.export writes
+    `<shader>\n\t{\n`, one parameter line per parameter, `\t}\n`; the shader is written as it is *)
+Definition params_text (c : nqcfg) (ps : list (str * str)) : str := flat_map (fun p => param_line c (fst p) (snd p)) ps.
+Definition vmt_file (c : nqcfg) (shader : str) (ps : list (str * str)) : str :=
+  shader ++ [LF; TAB; 123; LF] ++ params_text c ps ++ [TAB; 125; LF].
+(** the token stream Material.parse has to see: shader, newline, `{`, newline, (name, value, newline)*, `}`, newline *)
+Definition param_tokens (ps : list (str * str)) : list tok := flat_map (fun p => [TStr (fst p); TStr (snd p); TNL]) ps.
+Definition vmt_tokens (shader : str) (ps : list (str * str)) : list tok :=
+  [TStr shader; TNL; TBO; TNL] ++ param_tokens ps ++ [TBC; TNL].
